@@ -519,6 +519,10 @@ def _funding_invariants(ctx: Ctx, cer: gw.Ceremony) -> None:
     _sizes(ctx, psbt.tx, "unsigned tx")
     ctx.check(P18, "conservation", total_in == total_out + funded.fee, f"in {total_in} != out {total_out} + fee {funded.fee}")
     ctx.check(P18, "conservation", total_in == paid + funded.fee + funded.change, f"in {total_in} != paid {paid} + fee {funded.fee} + change {funded.change}")
+    kept = [(o.value, o.script_pub_key.script) for k, o in enumerate(psbt.tx.vout) if k != funded.change_index]
+    ctx.check(P18, "conservation", kept == [(o.value, o.script_pub_key.script) for o in cer.payments], lambda: f"the outputs beside the change (index {funded.change_index}) are not the payments asked for, in order: {[v for v, _ in kept][:8]} against {[o.value for o in cer.payments][:8]}", site="payments-kept")
+    if funded.change_index is not None:
+        ctx.check(P18, "conservation", psbt.tx.vout[funded.change_index].value == funded.change and psbt.tx.vout[funded.change_index].script_pub_key.script == cer.change_script, lambda: f"output {funded.change_index} holds {psbt.tx.vout[funded.change_index].value}, the change is {funded.change}", site="change-output")
     priced = psbt.vsize_estimate(cer.sizer)
     script = cer.change_script
     if funded.change_index is not None:
